@@ -1,10 +1,55 @@
-(* Props/C06_tcpascii.v — placeholder header; statements are added below. *)
-From PM.theories Require Import Base Expr Struct FrBaseA Lrc FrTcp FrAscii FrTls FrSpecA.
+(* Props/C06_tcpascii.v — C06 (framing is independent of the chunking), half for the socket
+   and ASCII framers.  [feed recv s chunks] = (final state, all deliveries, true iff no call
+   raised or ran out of fuel).  Frames, chunk lists and the decoder are universally
+   quantified; empty chunks are ordinary elements of the list. *)
+From PM.theories Require Import Base Expr Struct FrBaseA Lrc FrTcp FrAscii FrSpecA.
 From PM.Generated Require Import GenFramerA.
-From PM.proofs Require Import FrA_lrc_proofs FrA_stream_proofs.
+From PM.proofs Require Import FrA_tcp_proofs FrA_ascii_proofs.
 Open Scope list_scope.
 Open Scope Z_scope.
 
-Theorem C06_lrc_sum_zero : forall bs : bytes, (bsum bs + spec_lrc bs) mod 256 = 0.
-Proof. exact spec_lrc_sum. Qed.
-Print Assumptions C06_lrc_sum_zero.
+(* ASCII: for every stream of valid frames and EVERY division of it into reads, exactly the
+   frames are delivered, in order, and no call raises *)
+Theorem C06_ascii : forall (dec : bytes -> dres) (c : cfg) (frames : list frame) (chunks : list bytes),
+  Forall (valid_frame KAscii dec c) frames ->
+  concat chunks = concat (map (spec_adu KAscii) frames) ->
+  exists s', feed (a_recv base lrc ascii dec c) (a_init ascii) chunks
+             = (s', map (spec_delivery KAscii) frames, true).
+Proof. exact ascii_chunking. Qed.
+Print Assumptions C06_ascii.
+
+(* TCP: the full statement is refuted by the code as it is (open finding
+   F-C06-tcp-short-buffer-error-path) ... *)
+Definition C06_tcp_full_statement : Prop :=
+  forall (dec : bytes -> dres) (c : cfg) (frames : list frame) (chunks : list bytes),
+  Forall (valid_frame KTcp dec c) frames ->
+  concat chunks = concat (map (spec_adu KTcp) frames) ->
+  exists s', feed (t_recv base tcp dec c) (t_init tcp) chunks = (s', map (spec_delivery KTcp) frames, true).
+
+Theorem C06_tcp_refuted : exists dec c f chunks,
+  valid_frame KTcp dec c f /\ concat chunks = spec_adu KTcp f /\
+  snd (feed (t_recv base tcp dec c) (t_init tcp) chunks) = false.
+Proof.
+  exists tcp_refute_dec, tcp_refute_cfg, tcp_refute_frame, tcp_refute_chunks. exact tcp_refuted.
+Qed.
+Print Assumptions C06_tcp_refuted.
+
+(* ... and holds under exactly the hypothesis that delimits the defect: no read ends 1..7 bytes
+   into a frame ([cut_inside adus n k]: stream position n lies k bytes inside a frame) *)
+Theorem C06_tcp_partial : forall (dec : bytes -> dres) (c : cfg) (frames : list frame) (chunks : list bytes),
+  Forall (valid_frame KTcp dec c) frames ->
+  concat chunks = concat (map (spec_adu KTcp) frames) ->
+  (forall cs1 cs2 k, chunks = cs1 ++ cs2 ->
+     cut_inside (map (spec_adu KTcp) frames) (length (concat cs1)) k -> (8 <= k)%nat) ->
+  exists s', feed (t_recv base tcp dec c) (t_init tcp) chunks = (s', map (spec_delivery KTcp) frames, true).
+Proof. exact tcp_chunking. Qed.
+Print Assumptions C06_tcp_partial.
+
+(* the hypotheses are satisfiable: a frame cut 9 bytes in *)
+Example C06_nonvacuous :
+  let f := {| f_tid := 1; f_pid := 0; f_uid := 1; f_pdu := [3%N; 0%N; 0%N; 0%N; 1%N] |} in
+  let c := {| c_units := [1]; c_single := None |} in
+  let chunks := [firstn 9 (spec_adu KTcp f); []; skipn 9 (spec_adu KTcp f)] in
+  valid_frame KTcp (fun _ => DMsg 3) c f /\
+  feed (t_recv base tcp (fun _ => DMsg 3) c) (t_init tcp) chunks = (t_init tcp, [spec_delivery KTcp f], true).
+Proof. split; [repeat split; cbn; lia|vm_compute; reflexivity]. Qed.
